@@ -91,29 +91,72 @@ pub fn rec_lists(a: &Args, out: &mut Out) {
             if !is_str && pool.is_empty() {
                 continue;
             }
-            let mut full_frame: Option<Vec<u8>> = None;
-            for n in 0..=cap {
+            // build a message with n elements; `fixed` content does not depend on n (used to locate the count field)
+            let build_n = |n: usize, fixed: bool| -> (Option<Vec<J>>, Result<Message, String>) {
                 let mut v = base.clone();
                 let tags_in: Vec<J>;
                 {
                     let node = match get_path_mut(&mut v, &path) {
                         Some(x) => x,
-                        None => break,
+                        None => return (None, Err("no such path".into())),
                     };
+                    let k = if fixed { 0 } else { n };
                     if is_str {
-                        let s: String = (0..n).map(|i| (b'A' + ((i * 7 + n) % 26) as u8) as char).collect();
+                        let s: String = (0..n).map(|i| (b'A' + ((i * 7 + k) % 26) as u8) as char).collect();
                         tags_in = s.chars().map(|c| json!(c as u32)).collect();
                         *node = V::Str(s);
                     } else {
-                        let xs: Vec<V> = (0..n).map(|i| pool[(i + n) % pool.len()].clone()).collect();
+                        let xs: Vec<V> = (0..n).map(|i| pool[(i + k) % pool.len()].clone()).collect();
                         tags_in = xs.iter().map(|e| json!(tag(e))).collect();
                         match node.as_seq_mut() {
                             Some(s) => *s = xs,
-                            None => break,
+                            None => return (None, Err("not a sequence".into())),
                         }
                     }
                 }
-                let m = match v_to_msg(&v) {
+                (Some(tags_in), v_to_msg(&v).map_err(|e| e.to_string()))
+            };
+            let build_frame = |n: usize| -> Option<Vec<u8>> {
+                match build_n(n, true) {
+                    (_, Ok(m)) => match guarded(|| MessageBuilder::new().build_message(&m).map(|f| f.to_vec())) {
+                        Ok(Ok(f)) => Some(f),
+                        _ => None,
+                    },
+                    _ => None,
+                }
+            };
+            let cbits = l["count_bits"].as_u64().unwrap() as usize;
+            // position of the count field: from the layout when it is fixed; otherwise located on the wire as the first bit in
+            // which the frames with cap and cap-1 (otherwise identical) elements differ
+            let frame_a = build_frame(cap);
+            let mut coff: Option<usize> = l["count_off"].as_u64().map(|x| x as usize);
+            if coff.is_none() && cap >= 1 {
+                if let (Some(fa), Some(fb)) = (&frame_a, build_frame(cap - 1)) {
+                    let nb = (fa.len().min(fb.len()) - 6) * 8;
+                    let bit = |f: &Vec<u8>, k: usize| (f[3 + k / 8] >> (7 - k % 8)) & 1;
+                    if let Some(d) = (0..nb).find(|&k| bit(fa, k) != bit(&fb, k)) {
+                        let x = cap ^ (cap - 1);
+                        let p = (usize::BITS - 1 - x.leading_zeros()) as usize;
+                        if p < cbits && d + 1 + p >= cbits {
+                            coff = Some(d + 1 + p - cbits);
+                        }
+                    }
+                }
+            }
+            let mut eoff: Option<usize> = l["elems_off"].as_u64().map(|x| x as usize);
+            let ebits: Option<usize> = l["elem_bits"].as_u64().map(|x| x as usize);
+            if eoff.is_none() && is_str {
+                eoff = coff.map(|c| c + cbits);
+            }
+            let jo = |x: Option<usize>| x.map(|v| v as i64).unwrap_or(-1);
+            let (jc, je, jb) = (jo(coff), jo(eoff), jo(ebits));
+            for n in 0..=cap {
+                let (tags_in, m) = build_n(n, false);
+                let tags_in = match tags_in {
+                    Some(t) => t,
+                    None => break,
+                };
+                let m = match m {
                     Ok(m) => m,
                     Err(e) => {
                         out.emit(json!({"ev": "ListRt", "number": num, "path": path_s, "n": n, "out": format!("unconstructible:{}", e)}));
@@ -121,7 +164,7 @@ pub fn rec_lists(a: &Args, out: &mut Out) {
                     }
                 };
                 let res = guarded(|| MessageBuilder::new().build_message(&m).map(|f| f.to_vec()));
-                let mut e = json!({"ev": "ListRt", "number": num, "path": path_s, "n": n, "tags_in": tags_in});
+                let mut e = json!({"ev": "ListRt", "number": num, "path": path_s, "n": n, "tags_in": tags_in, "coff": jc, "eoff": je, "ebits": jb});
                 match res {
                     Ok(Ok(f)) => {
                         let (o, dec_n, tags_out) = decode_obs(&f, num, &path, is_str);
@@ -130,19 +173,15 @@ pub fn rec_lists(a: &Args, out: &mut Out) {
                         e["dec"] = json!(o);
                         e["dec_n"] = json!(dec_n);
                         e["tags_out"] = json!(tags_out);
-                        if n == cap {
-                            full_frame = Some(f);
-                        }
                     }
                     Ok(Err(er)) => e["out"] = json!(format!("err:{:?}", er)),
                     Err(p) => e["out"] = json!(format!("panic:{}", p)),
                 }
                 out.emit(e);
             }
+            let full_frame = frame_a;
             // ---- hostile frames derived from the full-length frame
-            let (coff, cbits) = (l["count_off"].as_i64(), l["count_bits"].as_u64().unwrap() as usize);
             if let (Some(f), Some(coff)) = (full_frame, coff) {
-                let coff = coff as usize;
                 // every count value above the capacity
                 for c in (cap + 1)..(1usize << cbits) {
                     let mut g = f.clone();
@@ -157,11 +196,10 @@ pub fn rec_lists(a: &Args, out: &mut Out) {
                     }
                     refresh_crc(&mut g);
                     let (o, _, _) = decode_obs(&g, num, &path, is_str);
-                    out.emit(json!({"ev": "ListHostile", "number": num, "path": path_s, "how": "count-above-cap", "frame": bytes_json(&g), "out": o}));
+                    out.emit(json!({"ev": "ListHostile", "number": num, "path": path_s, "how": "count-above-cap", "coff": jc, "eoff": je, "ebits": jb, "frame": bytes_json(&g), "out": o}));
                 }
                 // arbitrary element content (random bits, zero bytes) under an admissible count: still n elements
-                if let (Some(eoff), Some(ebits)) = (l["elems_off"].as_u64(), l["elem_bits"].as_u64()) {
-                    let (eoff, ebits) = (eoff as usize, ebits as usize);
+                if let (Some(eoff), Some(ebits)) = (eoff, ebits) {
                     for style in 0..6u8 {
                         let mut g = f.clone();
                         for e in 0..cap {
@@ -184,12 +222,11 @@ pub fn rec_lists(a: &Args, out: &mut Out) {
                         }
                         refresh_crc(&mut g);
                         let (o, dec_n, _) = decode_obs(&g, num, &path, is_str);
-                        out.emit(json!({"ev": "ListPatched", "number": num, "path": path_s, "frame": bytes_json(&g), "out": o, "dec_n": dec_n}));
+                        out.emit(json!({"ev": "ListPatched", "number": num, "path": path_s, "coff": jc, "eoff": je, "ebits": jb, "frame": bytes_json(&g), "out": o, "dec_n": dec_n}));
                     }
                 }
                 // a count above the capacity WITH a body that really holds that many elements (and the fields after the list)
-                if let (Some(eoff), Some(ebits)) = (l["elems_off"].as_u64(), l["elem_bits"].as_u64()) {
-                    let (eoff, ebits) = (eoff as usize, ebits as usize);
+                if let (Some(eoff), Some(ebits)) = (eoff, ebits) {
                     let total_bits = (f.len() - 6) * 8;
                     let bit = |k: usize| -> u8 { let g = 24 + k; (f[g / 8] >> (7 - g % 8)) & 1 };
                     let tail_start = eoff + cap * ebits;
@@ -215,7 +252,7 @@ pub fn rec_lists(a: &Args, out: &mut Out) {
                             }
                             let g = mk_frame(&bw.bytes(), 0);
                             let (o, _, _) = decode_obs(&g, num, &path, is_str);
-                            out.emit(json!({"ev": "ListHostile", "number": num, "path": path_s, "how": "count-above-cap-with-body", "frame": bytes_json(&g), "out": o}));
+                            out.emit(json!({"ev": "ListHostile", "number": num, "path": path_s, "how": "count-above-cap-with-body", "coff": jc, "eoff": je, "ebits": jb, "frame": bytes_json(&g), "out": o}));
                             if c > cap + 40 && c % 16 != 0 {
                                 // sample the long tail of 8-bit counters
                                 continue;
@@ -228,7 +265,7 @@ pub fn rec_lists(a: &Args, out: &mut Out) {
                 for cut in 2..plen {
                     let g = mk_frame(&f[3..3 + cut], 0);
                     let (o, _, _) = decode_obs(&g, num, &path, is_str);
-                    out.emit(json!({"ev": "ListHostile", "number": num, "path": path_s, "how": "truncated", "frame": bytes_json(&g), "out": o}));
+                    out.emit(json!({"ev": "ListHostile", "number": num, "path": path_s, "how": "truncated", "coff": jc, "eoff": je, "ebits": jb, "frame": bytes_json(&g), "out": o}));
                 }
             }
         }
